@@ -200,7 +200,7 @@ Lemma set_position_uses_norm_pos c s a p :
       | Some idx =>
           if Nat.ltb idx (length (e_rows s))
           then ({| e_store := list_set idx p' (e_store s); e_n := e_n s;
-                   e_active := e_active s; e_a2i := e_a2i s |}, Ok tt)
+                   e_active := e_active s; e_a2i := e_a2i s; e_model := e_model s |}, Ok tt)
           else (s, Err E_INDEX)
       end
   end.
